@@ -82,9 +82,9 @@ class NetWorld(World):
             "faults": sorted(f for f in ("drop", "drop_delayed", "reuse", "restart", "fork")
                              if r.random() < 0.5),
             "fault_rate": r.choice([0.05, 0.15, 0.3]),
-            "p_repeat": r.choice([0.0, 0.0, 0.05]),
+            "p_repeat": r.choice([0.0, 0.0, 0.05, 0.2]),
             "p_same_object_twice": r.choice([0.0, 0.0, 0.0, 0.02]),
-            "p_trace_by_rename": r.choice([0.0, 0.0, 0.0, 0.3]),
+            "p_trace_by_rename": r.choice([0.0, 0.0, 0.3, 0.3]),
             "size1": r.random() < 0.4,
         }
 
@@ -212,6 +212,10 @@ class NetWorld(World):
         op = {"k": kind, "net": r.randrange(n), "reuse": ("reuse" in kn["faults"] and r.random() < 0.5)}
         if kind in ("reindex", "t_reindex") and r.random() < kn.get("p_trace_by_rename", 0.0):
             op["trace_ok"] = True
+            if kind == "t_reindex" and r.random() < 0.5:
+                # aim at a label that is already repeated on some tensor
+                # (dissolving or moving a trace), when there is one
+                op["aim_repeated"] = True
         a = r.randrange(1 << 16)
         op["a"] = a  # generic operand selector (interpreted modulo what exists)
         op["b"] = r.randrange(1 << 16)
@@ -740,6 +744,34 @@ class NetWorld(World):
 
     def _op_t_reindex(self, op):
         t = self._some_tensor(op)
+        if op.get("aim_repeated"):
+            cands = [(tn, tid) for tn in self.nets for tid in sorted(tn.tensor_map)
+                     if len(set(tn.tensor_map[tid].inds)) != len(tn.tensor_map[tid].inds)]
+            if cands:
+                tn, tid = cands[op["a"] % len(cands)]
+                t = tn.tensor_map[tid]
+                rep = sorted({ix for ix in t.inds if t.inds.count(ix) > 1 and canonical(ix)})
+                if not rep:
+                    raise Skip()
+                old = rep[op["b"] % len(rep)]
+                same = sorted(ix for ix in set(t.inds) if ix != old and canonical(ix) and ind_size(ix) == ind_size(old))
+                self.stats.probe("rename_of_repeated_label")
+                if op["target"] == "swap" and same:
+                    o = same[op["a"] % len(same)]
+                    m = {old: o, o: old}
+                elif op["target"] == "existing" and same:
+                    m = {old: same[op["a"] % len(same)]}
+                else:
+                    pool = INDS1 if ind_size(old) == 1 else INDS
+                    m = {old: pool[op["b"] % len(pool)]}
+                    if m[old] == old:
+                        raise Skip()
+                if op["how"] == "modify":
+                    new_inds = tuple(m.get(ix, ix) for ix in t.inds)
+                    self._try(lambda: t.modify(inds=new_inds))
+                else:
+                    self._try(lambda: t.reindex_(m))
+                return
         if not t.inds:
             raise Skip()
         # rename only to labels of the same size; the target may already be on
